@@ -632,13 +632,21 @@ Lemma phase_create_sent q cmd evs st : phase_create q = Ok (ECmd cmd :: evs, st)
   exists d procs, prepare q = Ok (d, procs) /\
     build_cmd q (keystring (q_version q) (normalise_key (q_version q) (q_key q)))
               (normalise_key (q_version q) (q_key q)) procs d = Ok cmd /\
-    evs = [snap (svc1 q d)] /\ st = CSvc (svc1 q d) true.
+    evs = [snap (svc1 q d)] /\ st = CSvc (svc1 q d) true /\ has_linebreak cmd = false /\
+    has_linebreak (keystring (q_version q) (normalise_key (q_version q) (q_key q))) = false.
 Proof.
   unfold phase_create. destruct (prepare q) as [[d procs]|k|]; try discriminate.
   destruct ((q_version q =? 3) && _); [discriminate|].
-  destruct (existsb _ ao_key_forbidden); [discriminate|].
+  destruct (existsb _ ao_key_forbidden) eqn:KF; [discriminate|].
   destruct (build_cmd _ _ _ _ _) as [c|e|] eqn:B; try discriminate.
-  intros [= <- <- <-]. exists d, procs. auto.
+  destruct (existsb _ ao_cmd_forbidden) eqn:CF; [discriminate|].
+  intros [= <- <- <-]. exists d, procs. repeat split; try reflexivity; try assumption.
+  - unfold has_linebreak. change (existsb (fun c0 => memb (ch c0) c) ao_cmd_forbidden) with (memb CR c || (memb LF c || false)) in CF.
+    now rewrite orb_false_r in CF.
+  - unfold has_linebreak. cbv zeta in KF.
+    match type of KF with existsb (fun c0 => memb (ch c0) ?x) _ = _ =>
+      change (memb CR x || (memb LF x || false) = false) in KF end.
+    now rewrite orb_false_r in KF.
 Qed.
 
 Lemma list_eqb_refl {A} (eqA : A -> A -> bool) : (forall x, eqA x x = true) -> forall l, list_eqb eqA l l = true.
@@ -706,15 +714,17 @@ Lemma Ok_inj {A} (a b : A) : Ok a = Ok b -> a = b.
 Proof. now intros [= ->]. Qed.
 
 (* whatever create() sends: in scope, Tor reads back exactly the request *)
-Lemma sent_form q cmd evs st e :
-  phase_create q = Ok (ECmd cmd :: evs, st) -> in_scope q = true -> expected q = Some e ->
+Lemma cmd_form q d procs cmd e :
+  prepare q = Ok (d, procs) ->
+  build_cmd q (keystring (q_version q) (normalise_key (q_version q) (q_key q)))
+            (normalise_key (q_version q) (q_key q)) procs d = Ok cmd ->
+  in_scope q = true -> expected q = Some e ->
   exists ks kt kb toks, cmd = join [SP] (lit "ADD_ONION" :: ks :: toks) /\ ctok_ok ks /\ Forall ctok_ok toks /\
     split_first COLON ks = Some (kt, kb) /\
     exists a, parse_args toks {| a_ktype := kt; a_kblob := kb; a_ports := []; a_flags := []; a_clients := [] |} = Some a
               /\ ao_eqb a e = true.
 Proof.
-  intros PC IS EX.
-  destruct (phase_create_sent _ _ _ _ PC) as (d & procs & PR & BC & _ & _).
+  intros PR BC IS EX.
   destruct (prepare_ok _ _ _ PR) as (Hv & HA & VP & VL).
   destruct (expected_inv _ _ EX) as (kt & kb & m & KE & FM & ->).
   destruct (in_scope_inv _ _ _ _ IS KE) as (Ckt & Ckb & Hkb & PCl & HCl).
@@ -748,6 +758,17 @@ Proof.
   unfold ao_eqb, with_clients, with_flags, with_ports. cbn [a_ktype a_kblob a_ports a_flags a_clients app].
   rewrite !beqb_refl, (list_eqb_refl _ port_eqb_refl), flag_names_fn4, FE, Hd1, (list_eqb_refl _ client_eqb_refl).
   reflexivity.
+Qed.
+
+Lemma sent_form q cmd evs st e :
+  phase_create q = Ok (ECmd cmd :: evs, st) -> in_scope q = true -> expected q = Some e ->
+  exists ks kt kb toks, cmd = join [SP] (lit "ADD_ONION" :: ks :: toks) /\ ctok_ok ks /\ Forall ctok_ok toks /\
+    split_first COLON ks = Some (kt, kb) /\
+    exists a, parse_args toks {| a_ktype := kt; a_kblob := kb; a_ports := []; a_flags := []; a_clients := [] |} = Some a
+              /\ ao_eqb a e = true.
+Proof.
+  intros PC IS EX. destruct (phase_create_sent _ _ _ _ PC) as (d & procs & PR & BC & _).
+  exact (cmd_form q d procs cmd e PR BC IS EX).
 Qed.
 
 Lemma sent_reads_back q cmd evs st e :
@@ -801,6 +822,13 @@ Proof.
   intros H. apply forallb_forall. intros c Hc. rewrite forallb_forall in H. specialize (H c Hc). now destruct c.
 Qed.
 
+Lemma must_send_expected q : must_send q = true -> exists e, expected q = Some e.
+Proof.
+  intros MS. destruct (must_send_inv _ MS) as (_ & (kt & kb & KE) & GD). unfold expected. rewrite KE.
+  match goal with |- context[if ?b then _ else _] => replace b with true end; [eauto|].
+  symmetry. apply forallb_forall. intros c Hc. rewrite forallb_forall in GD. specialize (GD c Hc). now destruct c.
+Qed.
+
 Lemma must_send_sends q : (q_version q = 2 \/ q_version q = 3) -> must_send q = true ->
   exists cmd d, phase_create q = Ok ([ECmd cmd; snap (svc1 q d)], CSvc (svc1 q d) true).
 Proof.
@@ -821,8 +849,19 @@ Proof.
     apply existsb_exists in E as (c & Hc & M). rewrite forallb_forall in C1. specialize (C1 c Hc).
     unfold client_ok in C1. apply andb_true_iff in C1 as [C1 _]. apply andb_true_iff in C1 as [C1 _].
     apply andb_true_iff in C1 as [C1 _]. rewrite (clean_no_sp _ C1) in M. discriminate. }
-  destruct PR as (d & PR). unfold phase_create. rewrite PR. cbv zeta. rewrite K1, K2.
-  rewrite (build_cmd_tokens _ _ _ _ _ _ PA). eexists _, d. reflexivity.
+  destruct PR as (d & PR).
+  pose proof (build_cmd_tokens q (keystring (q_version q) (normalise_key (q_version q) (q_key q)))
+                (normalise_key (q_version q) (q_key q)) procs d toks PA) as BC.
+  destruct (must_send_expected q MS) as (e & EX).
+  destruct (cmd_form _ _ _ _ _ PR BC IS EX) as (ks & kt' & kb' & toks' & E & Hks & Hall & _).
+  set (cmd := join [SP] (lit "ADD_ONION" :: keystring (q_version q) (normalise_key (q_version q) (q_key q))
+                         :: toks ++ ftoks (flags_of q (normalise_key (q_version q) (q_key q))) ++ map ctok (dlist d))) in *.
+  assert (NC : no_crlf cmd = true)
+    by (rewrite E; apply no_crlf_join; constructor; [split; [discriminate|reflexivity]|constructor; assumption]).
+  unfold phase_create. rewrite PR. cbv zeta. rewrite K1, K2, BC.
+  replace (existsb (fun c => memb (ch c) cmd) ao_cmd_forbidden) with false; [eexists _, d; reflexivity|].
+  symmetry. change (existsb (fun c => memb (ch c) cmd) ao_cmd_forbidden) with (memb CR cmd || (memb LF cmd || false)).
+  unfold no_crlf in NC. apply andb_true_iff in NC as [N1 N2]. apply negb_true_iff in N1, N2. now rewrite N1, N2.
 Qed.
 
 Lemma normalise_text v s : exists p, normalise_key v (KText s) = KSText (p ++ s).
@@ -830,28 +869,6 @@ Proof.
   cbn [normalise_key].
   repeat match goal with |- context[if ?b then _ else _] => destruct b end;
     try (exists []; reflexivity); eexists; reflexivity.
-Qed.
-
-Lemma must_refuse_refuses q evs st : must_refuse q = true -> phase_create q = Ok (evs, st) ->
-  cmds_of evs = [] /\ failed evs = true.
-Proof.
-  intros MR. unfold phase_create. destruct (prepare q) as [[d procs]|k|] eqn:PR; try discriminate.
-  2:{ intros [= <- <-]. auto. }
-  unfold must_refuse in MR. apply orb_true_iff in MR as [MR|MR].
-  - destruct (key_expect (q_version q) (q_key q)) eqn:KE; try discriminate.
-    destruct (q_key q) as [| |s] eqn:QK; cbn [key_expect] in KE;
-      try (destruct (q_version q =? 3); discriminate).
-    destruct (has_linebreak s) eqn:LB.
-    2:{ destruct (split_first COLON s) as [[t b]|]; [discriminate|]. destruct s; discriminate. }
-    destruct (normalise_text (q_version q) s) as (p & NK). cbv zeta. rewrite NK. cbn [keystring].
-    destruct ((q_version q =? 3) && _); [intros [= <- <-]; auto|].
-    replace (existsb (fun c => memb (ch c) (p ++ s)) ao_key_forbidden) with true; [intros [= <- <-]; auto|].
-    symmetry. change (existsb (fun c => memb (ch c) (p ++ s)) ao_key_forbidden)
-      with (memb CR (p ++ s) || (memb LF (p ++ s) || false)).
-    rewrite !memb_app'. unfold has_linebreak in LB. apply orb_true_iff in LB as [L|L]; rewrite L.
-    + now rewrite orb_true_r.
-    + rewrite !orb_true_r. reflexivity.
-  - exfalso. destruct (prepare_ok _ _ _ PR) as (_ & _ & VP & _). exact (ports_refused _ _ _ MR VP).
 Qed.
 
 (* ------------------------------------------------------------------------------------------
@@ -1031,40 +1048,62 @@ Definition key_after (k : keyst) (pk : option bytes) : keyst :=
   | KSText x => KSText x
   end.
 
+Lemma arc_some : forall ls acc, lines_ok ls = true -> exists cl, add_reply_clients ls acc = Some cl.
+Proof.
+  induction ls as [|l ls IH]; intros acc LO; [eexists; reflexivity|].
+  cbn [lines_ok forallb] in LO. apply andb_true_iff in LO as [L1 L2]. cbn [add_reply_clients].
+  change (G ao_reply_client) with (lit "ClientAuth="). unfold strip_prefix in L1.
+  destruct (prefixb (lit "ClientAuth=") l); [|now apply IH].
+  destruct (split_first COLON (skipn (List.length (lit "ClientAuth=")) l)) as [[n b]|]; [|discriminate]. now apply IH.
+Qed.
+
 (* a usable answer: the service gets the address, the key and the client tokens *)
 Lemma phase_reply_good q ls s sid p2 s2 w :
   reply_ok q (RLines ls) = true ->
   field_of (lit "ServiceID") ls = Some sid ->
   (v_key s = KSNone -> field_of (lit "PrivateKey") ls <> None) ->
-  (forall cl, q_auth q = Some cl -> v_clients s = tokpairs cl) ->
   phase_reply q (RLines ls) s = Ok (p2, s2, w) ->
-  w = true /\ p2 = [snap s2] /\
-  s2 = {| v_host := Some (sid ++ lit ".onion");
-          v_key := key_after (v_key s) (field_of (lit "PrivateKey") ls);
-          v_clients := match q_auth q with Some _ => v_clients s ++ reply_clients ls | None => v_clients s end |}.
+  w = true /\ p2 = [snap s2] /\ v_host s2 = Some (sid ++ lit ".onion") /\
+  v_key s2 = key_after (v_key s) (field_of (lit "PrivateKey") ls) /\
+  match q_auth q with
+  | None => v_clients s2 = v_clients s
+  | Some cl => v_clients s = tokpairs cl -> v_clients s2 = v_clients s ++ reply_clients ls
+  end.
 Proof.
-  intros RO FS FK CL. cbn [phase_reply]. destruct (existsb (memb LF) ls); [discriminate|].
+  intros RO FS FK. cbn [phase_reply]. destruct (existsb (memb LF) ls); [discriminate|].
   cbn [reply_ok] in RO. apply andb_true_iff in RO as [RO R4]. apply andb_true_iff in RO as [RO R3].
   apply andb_true_iff in RO as [R1 R2].
   change (G ao_reply_sid) with (lit "ServiceID"). change (G ao_reply_key) with (lit "PrivateKey").
   change (G ao_onion_suffix) with (lit ".onion").
   rewrite (keywords_field (lit "ServiceID") ls eq_refl eq_refl R1), (keywords_field (lit "PrivateKey") ls eq_refl eq_refl R2), FS.
+  assert (TAIL : forall s2', v_clients s2' = v_clients s ->
+            match q_auth q with
+            | Some _ => match add_reply_clients ls (v_clients s2') with
+                        | Some cl => Ok ([snap {| v_host := v_host s2'; v_key := v_key s2'; v_clients := cl |}],
+                                         {| v_host := v_host s2'; v_key := v_key s2'; v_clients := cl |}, true)
+                        | None => Ok ([EFailed ValueError; snap s2'], s2', false)
+                        end
+            | None => Ok ([snap s2'], s2', true)
+            end = Ok (p2, s2, w) ->
+            w = true /\ p2 = [snap s2] /\ v_host s2 = v_host s2' /\ v_key s2 = v_key s2' /\
+            match q_auth q with
+            | None => v_clients s2 = v_clients s
+            | Some cl => v_clients s = tokpairs cl -> v_clients s2 = v_clients s ++ reply_clients ls
+            end).
+  { intros s2' VC. destruct (q_auth q) as [cl|].
+    - apply andb_true_iff in R4 as [R4 R5]. rewrite VC. destruct (arc_some ls (v_clients s) R4) as (cl' & A). rewrite A.
+      intros [= <- <- <-]. cbn [v_host v_key v_clients]. repeat (split; [reflexivity|]).
+      intros Hc. rewrite arc_ok in A by (try exact R4; rewrite Hc; exact R5). now injection A as <-.
+    - intros [= <- <- <-]. repeat (split; [reflexivity|]). exact VC. }
   destruct (v_key s) as [| |x] eqn:VK; cbn [key_after].
   - destruct (field_of (lit "PrivateKey") ls) as [pk|] eqn:FP; [|now exfalso; apply FK].
-    apply beqb_eq in R3. rewrite R3. cbn [v_host v_key v_clients].
-    destruct (q_auth q) as [cl|] eqn:QA.
-    + apply andb_true_iff in R4 as [R4 R5]. rewrite arc_ok by (try exact R4; rewrite (CL cl eq_refl); exact R5).
-      intros [= <- <- <-]. auto.
-    + intros [= <- <- <-]. auto.
-  - cbn [v_host v_key v_clients]. destruct (q_auth q) as [cl|] eqn:QA.
-    + apply andb_true_iff in R4 as [R4 R5]. rewrite arc_ok by (try exact R4; rewrite (CL cl eq_refl); exact R5).
-      intros [= <- <- <-]. auto.
-    + intros [= <- <- <-]. auto.
-  - cbn [v_host v_key v_clients]. destruct (q_auth q) as [cl|] eqn:QA.
-    + apply andb_true_iff in R4 as [R4 R5]. rewrite arc_ok by (try exact R4; rewrite (CL cl eq_refl); exact R5).
-      intros [= <- <- <-]. auto.
-    + intros [= <- <- <-]. auto.
+    apply beqb_eq in R3. rewrite R3. intros H. apply TAIL in H; [exact H|reflexivity].
+  - intros H. apply TAIL in H; [exact H|reflexivity].
+  - intros H. apply TAIL in H; [exact H|reflexivity].
 Qed.
+
+Lemma lb_no_crlf s : has_linebreak s = false -> no_crlf s = true.
+Proof. unfold has_linebreak, no_crlf. intros H. apply orb_false_iff in H as [-> ->]. reflexivity. Qed.
 
 (* ------------------------------------------------------------------------------------------
    H. the whole drive against the oracle of Spec/C14.v
@@ -1073,6 +1112,141 @@ Definition is_unknown (c : pclass) : bool := match c with PCUnknown => true | _ 
 (* every port request is classified by the Spec (numbers are plain digit strings, a free port is
    available for every int entry) *)
 Definition no_unknown (q : request) : bool := negb (existsb is_unknown (port_classes (q_ports q) (q_free q))).
+
+Lemma prepare_version q : prepare q <> Out -> q_version q = 2 \/ q_version q = 3.
+Proof.
+  unfold prepare. destruct ((q_version q =? 2) || (q_version q =? 3)) eqn:V; [|cbn; congruence].
+  intros _. now apply version_cases.
+Qed.
+
+Definition svc0 (q : request) : svc :=
+  {| v_host := None; v_key := normalise_key (q_version q) (q_key q); v_clients := [] |}.
+
+Lemma phase_create_cases q p1 st : phase_create q = Ok (p1, st) ->
+  (q_version q = 2 \/ q_version q = 3) /\
+  ((exists k, p1 = [EFailed k; ENoService] /\ st = CNone) \/
+   (exists k s, p1 = [EFailed k; snap s] /\ st = CSvc s false /\ v_host s = None /\
+                v_key s = normalise_key (q_version q) (q_key q)) \/
+   (exists cmd d procs, p1 = [ECmd cmd; snap (svc1 q d)] /\ st = CSvc (svc1 q d) true /\ prepare q = Ok (d, procs))).
+Proof.
+  unfold phase_create. destruct (prepare q) as [[d procs]|k|] eqn:PR; try discriminate.
+  - assert (V : q_version q = 2 \/ q_version q = 3) by (apply prepare_version; congruence).
+    cbv zeta. destruct ((q_version q =? 3) && _);
+      [intros [= <- <-]; split; [exact V|]; right; left; exists ValueError, (svc0 q); repeat split; reflexivity|].
+    destruct (existsb _ ao_key_forbidden);
+      [intros [= <- <-]; split; [exact V|]; right; left; exists ValueError, (svc0 q); repeat split; reflexivity|].
+    destruct (build_cmd _ _ _ _ _) as [c|e|]; try discriminate.
+    + destruct (existsb _ ao_cmd_forbidden); intros [= <- <-]; split; try exact V.
+      * right; left. exists ValueError, (svc1 q d). repeat split; reflexivity.
+      * right; right. exists c, d, procs. repeat split; reflexivity.
+    + intros [= <- <-]; split; try exact V. right; left. exists e, (svc0 q). repeat split; reflexivity.
+  - intros [= <- <-]. split; [apply prepare_version; congruence|]. left. exists k. split; reflexivity.
+Qed.
+
+(* ---- a line break anywhere in the arguments ends up in the assembled command ---- *)
+Lemma has_lb_app a b : has_linebreak (a ++ b) = has_linebreak a || has_linebreak b.
+Proof.
+  unfold has_linebreak. rewrite !memb_app'.
+  destruct (memb CR a), (memb CR b), (memb LF a), (memb LF b); reflexivity.
+Qed.
+
+Lemma digits_no_lb s : forallb is_digit s = true -> has_linebreak s = false.
+Proof. intros H. unfold has_linebreak. now rewrite (digits_no CR s eq_refl H), (digits_no LF s eq_refl H). Qed.
+
+Definition port_hostile (p : preq) : bool :=
+  match p with PStr s _ => has_linebreak s | PPair _ (LText t _) => has_linebreak t | _ => false end.
+
+Lemma process_port_hostile p free s loc free' :
+  process_port p free = Ok (s, loc, free') -> port_hostile p = true -> has_linebreak s = true.
+Proof.
+  destruct p as [n | r l | ps fl]; cbn [process_port port_hostile]; [discriminate| |].
+  - destruct l as [m|t tfl]; [discriminate|]. intros H HL.
+    destruct (match r with NInt n => Ok (Some n) | NStr s0 => py_int s0 end) as [[rn|]|k|]; try discriminate.
+    destruct (py_int t) as [[m|]|k|] eqn:PI; try discriminate.
+    + apply py_int_ok, parse_dec_some in PI as [_ PI]. rewrite (digits_no_lb _ PI) in HL. discriminate.
+    + assert (K : Ok (dec_of_N rn ++ SP :: t, tfl, free) = Ok (s, loc, free')).
+      { destruct (prefixb (lit "unix:/") t); [exact H|]. destruct (negb (memb COLON t)); [discriminate|].
+        destruct (split_all COLON t) as [|x1 [|x2 [|x3 r3]]]; try discriminate. exact H. }
+      injection K as <- _ _. change (SP :: t) with ([SP] ++ t). rewrite !has_lb_app, HL. now rewrite !orb_true_r.
+  - destruct (validate_single ps fl) as [[]|k|]; try discriminate. now intros [= <- _ _] HL.
+Qed.
+
+Definition lbfst (x : bytes * bool) : bool := has_linebreak (fst x).
+
+Lemma validate_ports_hostile : forall ps free procs, validate_ports ps free = Ok procs ->
+  existsb port_hostile ps = true -> existsb lbfst procs = true.
+Proof.
+  induction ps as [|p ps IH]; intros free procs V H; [discriminate|].
+  cbn [validate_ports] in V. destruct (process_port p free) as [[[s loc] fr']|k|] eqn:PP; try discriminate.
+  destruct (validate_ports ps fr') as [r|k|] eqn:V'; try discriminate. injection V as <-.
+  cbn [existsb] in *. apply orb_true_iff in H as [H|H].
+  - unfold lbfst at 1. cbn [fst]. now rewrite (process_port_hostile _ _ _ _ _ PP H).
+  - rewrite (IH _ _ V' H). apply orb_true_r.
+Qed.
+
+Lemma port_args_hostile : forall procs pa, port_args procs = Ok pa -> existsb lbfst procs = true ->
+  has_linebreak pa = true.
+Proof.
+  induction procs as [|[p loc] procs IH]; intros pa H HL; [discriminate|].
+  cbn [port_args] in H. unfold port_arg in H. destruct (split_first SP p) as [[a b]|] eqn:SF; try discriminate.
+  destruct (port_args procs) as [r|k|] eqn:PA; try discriminate. apply Ok_inj in H. subst pa.
+  cbn [existsb] in HL. rewrite !has_lb_app. apply orb_true_iff in HL as [HL|HL].
+  - unfold lbfst in HL. cbn [fst] in HL. apply split_first_some in SF as [-> _].
+    change (SP :: b) with ([SP] ++ b) in HL. rewrite !has_lb_app in HL. change (has_linebreak [SP]) with false in HL.
+    cbn [orb] in HL. apply orb_true_iff in HL as [HL|HL]; rewrite HL; now rewrite !orb_true_r.
+  - rewrite (IH r eq_refl HL). apply orb_true_r.
+Qed.
+
+Definition client_hostile (c : bytes * option bytes) : bool :=
+  has_linebreak (fst c) || match snd c with Some t => has_linebreak t | None => false end.
+
+Lemma client_args_hostile : forall d, existsb client_hostile d = true -> has_linebreak (client_args d) = true.
+Proof.
+  induction d as [|[n t] d IH]; intros H; [discriminate|]. cbn [existsb] in H.
+  unfold client_args in *. cbn [flat_map fst snd]. rewrite has_lb_app. apply orb_true_iff in H as [H|H].
+  - unfold client_hostile in H. cbn [fst snd] in H. destruct t as [t|]; rewrite !has_lb_app.
+    + apply orb_true_iff in H as [H|H]; rewrite H; now rewrite !orb_true_r.
+    + rewrite orb_false_r in H. rewrite H. now rewrite !orb_true_r.
+  - rewrite (IH H). apply orb_true_r.
+Qed.
+
+Lemma build_cmd_hostile q ks k procs d cmd : build_cmd q ks k procs d = Ok cmd ->
+  existsb lbfst procs = true \/ existsb client_hostile (dlist d) = true -> has_linebreak cmd = true.
+Proof.
+  unfold build_cmd. destruct (port_args procs) as [pa|e|] eqn:PA; try discriminate. intros E H.
+  apply Ok_inj in E. subst cmd. rewrite !has_lb_app. destruct H as [H|H].
+  - rewrite (port_args_hostile _ _ PA H). now rewrite !orb_true_r.
+  - destruct d as [d|]; [|discriminate]. cbn [dlist] in H. rewrite (client_args_hostile _ H). now rewrite !orb_true_r.
+Qed.
+
+(* requests that must be refused never get a command out *)
+Lemma refuse_not_sent q cmd evs st : must_refuse q = true -> phase_create q = Ok (ECmd cmd :: evs, st) -> False.
+Proof.
+  intros MR PC. destruct (phase_create_sent _ _ _ _ PC) as (d & procs & PR & BC & _ & _ & LC & LK).
+  destruct (prepare_ok _ _ _ PR) as (_ & HA & VP & _).
+  unfold must_refuse in MR. apply orb_true_iff in MR as [MR|MR]; [apply orb_true_iff in MR as [MR|MR]|].
+  - destruct (key_expect (q_version q) (q_key q)) eqn:KE; try discriminate.
+    destruct (q_key q) as [| |s] eqn:QK; cbn [key_expect] in KE; try (destruct (q_version q =? 3); discriminate).
+    destruct (has_linebreak s) eqn:LB.
+    2:{ destruct (split_first COLON s) as [[t b]|]; [discriminate|]. destruct s; discriminate. }
+    destruct (normalise_text (q_version q) s) as (p & NK). rewrite NK in LK. cbn [keystring] in LK.
+    rewrite has_lb_app, LB, orb_true_r in LK. discriminate.
+  - exact (ports_refused _ _ _ MR VP).
+  - apply andb_true_iff in MR as [HL ND]. unfold hostile_linebreak in HL. unfold names_distinct in ND.
+    assert (has_linebreak cmd = true); [|congruence].
+    apply (build_cmd_hostile _ _ _ _ _ _ BC). apply orb_true_iff in HL as [HL|HL].
+    + left. exact (validate_ports_hostile _ _ _ VP HL).
+    + right. destruct HA as [[A ->]|(cl & dd & A & AD & ->)]; rewrite A in *; [discriminate|].
+      rewrite (auth_dict_nodup _ _ AD ND). exact HL.
+Qed.
+
+Lemma must_refuse_refuses q evs st : must_refuse q = true -> phase_create q = Ok (evs, st) ->
+  cmds_of evs = [] /\ failed evs = true.
+Proof.
+  intros MR PC.
+  destruct (phase_create_cases _ _ _ PC) as (_ & [(k & -> & ->)|[(k & s & -> & -> & _)|(cmd & d & procs & -> & -> & _)]]);
+    [auto|auto|]. exfalso. exact (refuse_not_sent _ _ _ _ MR PC).
+Qed.
 
 Lemma key_unknown v k : key_expect v k = KCUnknown -> k = KText [].
 Proof.
@@ -1097,33 +1271,6 @@ Proof.
     destruct (must_refuse_refuses q _ _ MR PC) as [C _]. discriminate.
   - exfalso. apply key_unknown in KE. unfold prepare in PR. rewrite KE in PR.
     destruct (negb _); discriminate.
-Qed.
-
-Lemma prepare_version q : prepare q <> Out -> q_version q = 2 \/ q_version q = 3.
-Proof.
-  unfold prepare. destruct ((q_version q =? 2) || (q_version q =? 3)) eqn:V; [|cbn; congruence].
-  intros _. now apply version_cases.
-Qed.
-
-Definition svc0 (q : request) : svc :=
-  {| v_host := None; v_key := normalise_key (q_version q) (q_key q); v_clients := [] |}.
-
-Lemma phase_create_cases q p1 st : phase_create q = Ok (p1, st) ->
-  (q_version q = 2 \/ q_version q = 3) /\
-  ((exists k, p1 = [EFailed k; ENoService] /\ st = CNone) \/
-   (exists k, p1 = [EFailed k; snap (svc0 q)] /\ st = CSvc (svc0 q) false) \/
-   (exists cmd d procs, p1 = [ECmd cmd; snap (svc1 q d)] /\ st = CSvc (svc1 q d) true /\ prepare q = Ok (d, procs))).
-Proof.
-  unfold phase_create. destruct (prepare q) as [[d procs]|k|] eqn:PR; try discriminate.
-  - assert (V : q_version q = 2 \/ q_version q = 3) by (apply prepare_version; congruence).
-    cbv zeta. destruct ((q_version q =? 3) && _);
-      [intros [= <- <-]; split; [exact V|]; right; left; exists ValueError; split; reflexivity|].
-    destruct (existsb _ ao_key_forbidden);
-      [intros [= <- <-]; split; [exact V|]; right; left; exists ValueError; split; reflexivity|].
-    destruct (build_cmd _ _ _ _ _) as [c|e|]; try discriminate; intros [= <- <-]; split; try exact V.
-    + right; right. exists c, d, procs. repeat split; reflexivity.
-    + right; left. exists e. split; reflexivity.
-  - intros [= <- <-]. split; [apply prepare_version; congruence|]. left. exists k. split; reflexivity.
 Qed.
 
 Definition keyrel (k0 k : keyst) : Prop :=
@@ -1248,19 +1395,19 @@ Lemma forallb_4 {A} (f : A -> bool) a b c d :
 Proof. intros H1 H2 H3 H4. cbn [forallb]. now rewrite H1, H2, H3, H4. Qed.
 
 Theorem oracle_holds q rp tr :
-  run q rp = Some tr -> in_scope q = true -> no_unknown q = true -> reply_ok q rp = true ->
+  run q rp = Some tr -> no_unknown q = true -> reply_ok q rp = true ->
   oracle q rp tr = true.
 Proof.
-  intros R IS NU RO. unfold run in R.
+  intros R NU RO. unfold run in R.
   destruct (phase_create q) as [[p1 st]|k|] eqn:PC; try discriminate.
-  destruct (phase_create_cases _ _ _ PC) as (Hv & [(k & -> & ->)|[(k & -> & ->)|(cmd & d & procs & -> & -> & PR)]]).
+  destruct (phase_create_cases _ _ _ PC) as (Hv & [(k & -> & ->)|[(k & s0 & -> & -> & H0 & K0)|(cmd & d & procs & -> & -> & PR)]]).
   - (* refused before a service object exists *)
     injection R as <-. apply oracle_not_sent; try reflexivity.
     destruct (must_send q) eqn:MS; [|reflexivity]. destruct (must_send_sends q Hv MS) as (c & d' & E). congruence.
   - (* refused, the service object stays registered without address *)
     injection R as <-. apply oracle_not_sent; try reflexivity.
     + destruct (must_send q) eqn:MS; [|reflexivity]. destruct (must_send_sends q Hv MS) as (c & d' & E). congruence.
-    + intros K. cbn. unfold svc0. cbn [v_key]. rewrite K. reflexivity.
+    + intros K. unfold snaps_ok, snap. cbn [forallb]. rewrite K0, K. reflexivity.
   - (* sent *)
     destruct (sent_expected _ _ _ _ PC NU) as (e & EX).
     set (s1 := svc1 q d) in *.
@@ -1268,8 +1415,8 @@ Proof.
     destruct (reply_facts _ _ _ _ _ _ PRp) as (C2 & KR2 & SN2 & HF).
     assert (NR : must_refuse q = false).
     { destruct (must_refuse q) eqn:MR; [|reflexivity]. destruct (must_refuse_refuses _ _ _ MR PC) as [C _]. discriminate. }
-    destruct (sent_reads_back _ _ _ _ _ PC IS EX) as (a & PA & AE).
-    pose proof (sent_no_crlf _ _ _ _ _ PC IS EX) as NC.
+    assert (NC : no_crlf cmd = true).
+    { destruct (phase_create_sent _ _ _ _ PC) as (d' & procs' & _ & _ & _ & _ & LC & _). now apply lb_no_crlf. }
     (* the part of the trace after the answer *)
     assert (TR : exists p3 p4, tr = [[ECmd cmd; snap s1]; p2; p3; p4] /\
                  cmds_of p3 = [] /\ snapsP (fun _ k _ => k = v_key s2) p3 /\ snapsP (fun _ k _ => k = v_key s2) p4 /\
@@ -1312,7 +1459,9 @@ Proof.
     }
     assert (O4 : o_read q [ECmd cmd; snap s1] = true).
     {
-      unfold o_read. change (cmds_of [ECmd cmd; snap s1]) with [cmd]. rewrite EX, IS, PA. exact AE.
+      unfold o_read. change (cmds_of [ECmd cmd; snap s1]) with [cmd]. rewrite EX.
+      destruct (in_scope q) eqn:IS; [|reflexivity].
+      destruct (sent_reads_back _ _ _ _ _ PC IS EX) as (a & PA & AE). rewrite PA. exact AE.
     }
     assert (O5 : o_discard q [[ECmd cmd; snap s1]; p2; p3; p4] = true).
     {
@@ -1359,10 +1508,7 @@ Proof.
       destruct (reply_sid_inv _ _ _ RS) as [FS FK].
       assert (FK' : v_key s1 = KSNone -> field_of (lit "PrivateKey") ls <> None).
       { intros K1. apply FK. unfold s1, svc1 in K1. cbn [v_key] in K1. now apply normalise_none_disc in K1. }
-      assert (CL : forall cl, q_auth q = Some cl -> v_clients s1 = tokpairs cl).
-      { intros cl QA. unfold s1, svc1. cbn [v_clients]. now apply (svc1_clients_tok q d procs cl). }
-      destruct (phase_reply_good q ls s1 sid p2 s2 w RO FS FK' CL PRp) as (-> & -> & E2).
-      assert (VH : v_host s2 = Some (sid ++ lit ".onion")) by (now rewrite E2).
+      destruct (phase_reply_good q ls s1 sid p2 s2 w RO FS FK' PRp) as (-> & -> & VH & VK2 & VC).
       destruct TAIL as [(VN & _)|(h & VH' & W & -> & ->)]; [congruence|].
       assert (h = sid ++ lit ".onion") by congruence. subst h. rewrite sid_of_host_app.
       assert (SNAP : forall (P : option bytes -> keyst -> list (bytes * bytes) -> bool),
@@ -1373,15 +1519,17 @@ Proof.
         destruct (Hall e' He) as [->|Hn]; [exact HP|]. now destruct e'. }
       set (cond := fun (h : option bytes) (k : keyst) (c : list (bytes * bytes)) => _).
       assert (HC : cond (v_host s2) (v_key s2) (v_clients s2) = true).
-      { unfold cond. rewrite E2. cbn [v_host v_key v_clients]. cbn [option_eqb]. rewrite beqb_refl. cbn [andb].
+      { unfold cond. rewrite VH, VK2. cbn [option_eqb]. rewrite beqb_refl. cbn [andb].
         apply andb_true_iff. split.
         - destruct (q_key q) eqn:QK; try reflexivity.
           destruct (field_of (lit "PrivateKey") ls) as [pk|]; [|reflexivity].
           unfold s1, svc1. cbn [v_key]. rewrite QK. cbn. apply beqb_refl.
         - destruct (q_auth q) as [cl|] eqn:QA.
-          + rewrite IS. unfold expected_clients. rewrite QA. rewrite (CL cl eq_refl).
-            fold (tokpairs cl). now rewrite assoc_subset_refl.
-          + unfold s1, svc1. cbn [v_clients].
+          + destruct (in_scope q) eqn:IS; [|reflexivity].
+            assert (CL : v_clients s1 = tokpairs cl).
+            { unfold s1, svc1. cbn [v_clients]. now apply (svc1_clients_tok q d procs cl). }
+            rewrite (VC CL). unfold expected_clients. rewrite QA, CL. fold (tokpairs cl). now rewrite assoc_subset_refl.
+          + rewrite VC. unfold s1, svc1. cbn [v_clients].
             destruct (prepare_ok _ _ _ PR) as (_ & [[_ ->]|(cl' & dd & A & _)] & _); [reflexivity|congruence]. }
       assert (S2a : snaps_ok cond [snap s2] = true)
         by (apply SNAP; [exact HC|intros e' [<-|[]]; left; reflexivity]).
@@ -1400,13 +1548,6 @@ Qed.
 (* ------------------------------------------------------------------------------------------
    I. the statements of Properties/C14.v
    ------------------------------------------------------------------------------------------ *)
-Lemma must_send_expected q : must_send q = true -> exists e, expected q = Some e.
-Proof.
-  intros MS. destruct (must_send_inv _ MS) as (_ & (kt & kb & KE) & GD). unfold expected. rewrite KE.
-  match goal with |- context[if ?b then _ else _] => replace b with true end; [eauto|].
-  symmetry. apply forallb_forall. intros c Hc. rewrite forallb_forall in GD. specialize (GD c Hc). now destruct c.
-Qed.
-
 Theorem roundtrip q : (q_version q = 2 \/ q_version q = 3) -> must_send q = true ->
   exists cmd d e a, phase_create q = Ok ([ECmd cmd; snap (svc1 q d)], CSvc (svc1 q d) true) /\
     expected q = Some e /\ parse_add_onion cmd = Some a /\ ao_eqb a e = true.
@@ -1421,7 +1562,7 @@ Lemma refused_run q rp tr : must_refuse q = true -> run q rp = Some tr ->
 Proof.
   intros MR R. unfold run in R. destruct (phase_create q) as [[p1 st]|k|] eqn:PC; try discriminate.
   destruct (must_refuse_refuses _ _ _ MR PC) as [C F].
-  destruct (phase_create_cases _ _ _ PC) as (_ & [(k & -> & ->)|[(k & -> & ->)|(cmd & d & procs & -> & -> & _)]]).
+  destruct (phase_create_cases _ _ _ PC) as (_ & [(k & -> & ->)|[(k & s0 & -> & -> & _ & K0)|(cmd & d & procs & -> & -> & _)]]).
   - injection R as <-. eauto.
   - injection R as <-. eauto.
   - discriminate.
@@ -1429,6 +1570,9 @@ Qed.
 
 Lemma linebreak_key_refused q s : q_key q = KText s -> has_linebreak s = true -> must_refuse q = true.
 Proof. intros K L. unfold must_refuse. rewrite K. cbn [key_expect]. now rewrite L. Qed.
+
+Lemma linebreak_anywhere_refused q : hostile_linebreak q = true -> names_distinct q = true -> must_refuse q = true.
+Proof. intros H N. unfold must_refuse. rewrite H, N. now rewrite orb_true_r. Qed.
 
 Lemma snapsP_nil P : snapsP P [].
 Proof. intros ? ? ? []. Qed.
@@ -1438,11 +1582,11 @@ Lemma run_keys q rp tr : run q rp = Some tr -> forall evs, In evs tr ->
 Proof.
   intros R. unfold run in R. destruct (phase_create q) as [[p1 st]|k|] eqn:PC; try discriminate.
   assert (K0 : forall k, keyrel k k) by (intros k; left; reflexivity).
-  destruct (phase_create_cases _ _ _ PC) as (_ & [(k & -> & ->)|[(k & -> & ->)|(cmd & d & procs & -> & -> & _)]]).
+  destruct (phase_create_cases _ _ _ PC) as (_ & [(k & -> & ->)|[(k & s0 & -> & -> & _ & KS0)|(cmd & d & procs & -> & -> & _)]]).
   - injection R as <-. intros evs [<-|[<-|[<-|[<-|[]]]]]; [|apply snapsP_nil|apply snapsP_nil|apply snapsP_nil].
     intros h k0 c [Hin|[Hin|[]]]; discriminate.
   - injection R as <-. intros evs [<-|[<-|[<-|[<-|[]]]]]; [|apply snapsP_nil|apply snapsP_nil|apply snapsP_nil].
-    intros h k0 c [Hin|[Hin|[]]]; [discriminate|]. injection Hin as _ <- _. apply K0.
+    intros h k0 c [Hin|[Hin|[]]]; [discriminate|]. injection Hin as _ <- _. rewrite KS0. apply K0.
   - destruct (phase_reply q rp (svc1 q d)) as [[[p2 s2] w]|k|] eqn:PRp; try discriminate.
     destruct (reply_facts _ _ _ _ _ _ PRp) as (_ & KR2 & SN2 & _).
     assert (S2 : forall h k0 c, ESnap h k0 c = snap s2 -> keyrel (normalise_key (q_version q) (q_key q)) k0)
@@ -1478,11 +1622,12 @@ Proof.
   apply split_first_some in SF as [E _]. rewrite E in KR. now apply keyrel_text.
 Qed.
 
-(* the open finding C14-F1: a client named  a CR LF b  *)
+(* the former finding C14-F1 (repaired by 6a4374c): a client named  a CR LF b  is refused *)
 Definition f1_request : request :=
   {| q_version := 2; q_key := KNone; q_ports := [PStr (lit "80 127.0.0.1:80") true]; q_detach := false;
      q_single := false; q_auth := Some [([ch 97; CR; LF; ch 98], None)]; q_free := [] |}.
 
-Lemma hostile_linebreak_refuted :
-  exists tr, hostile_linebreak f1_request = true /\ run f1_request RError = Some tr /\ oracle f1_request RError tr = false.
-Proof. eexists. split; [reflexivity|]. split; vm_compute; reflexivity. Qed.
+Lemma f1_now_refused :
+  hostile_linebreak f1_request = true /\ must_refuse f1_request = true /\
+  exists tr, run f1_request RError = Some tr /\ oracle f1_request RError tr = true.
+Proof. split; [reflexivity|]. split; [reflexivity|]. eexists. split; vm_compute; reflexivity. Qed.
